@@ -1078,3 +1078,30 @@ def ragged_opener_mode_agreement(ctx, clause):
                           f'mode, the other the handle\'s own — in a read-only context one file is still written')
     ctx.floor('RaggedArray methods opening both sub-arrays with a mode', n, 1)
     return n
+
+
+def mode_setters_refuse_by_value_only(ctx, clause):
+    """The `accessmode` setters of Array, RaggedArray and MetaData change the mode for every valid value: the only
+    refusal is the validation of the value itself.  A refusal that depends on the state of the handle (an open map, the
+    current mode) makes the propagation in RaggedArray.accessmode partial — children switched before the refusing one
+    keep the new mode while the ragged handle still reports the old one (seeded C11-13: metadata became writeable
+    through a handle that says 'r')."""
+    n = 0
+    for cname in ('Array', 'RaggedArray', 'MetaData'):
+        c = ctx.repo.cls(cname)
+        for f in c.all_funcs():
+            if not (f.is_setter and f.name == 'accessmode'):
+                continue
+            n += 1
+            bad = []
+            for r in (x for x in own_nodes(f.node) if isinstance(x, ast.Raise)):
+                tests = [p_.test for p_, fld in enclosing(f.node, r) if isinstance(p_, ast.If)]
+                if any(isinstance(z, ast.Name) and z.id == 'self' for t in tests for z in ast.walk(t)):
+                    bad.append(r)
+            ctx.decide(not bad, 'R-SIB', clause, f, bad[0] if bad else None, f'setter-refuses-by-value-only::{cname}',
+                       f'{cname}.accessmode setter: a refusal depends only on the new value (validation), never on the state of the handle',
+                       detail=f'`{norm(bad[0])[:60] if bad else ""}` is raised depending on the handle\'s state: RaggedArray.accessmode '
+                              f'sets its children one after the other, so a child that refuses leaves the others (e.g. the metadata) '
+                              f'in the new mode while the ragged handle keeps reporting the old one')
+    ctx.floor('accessmode setters', n, 3)
+    return n
